@@ -794,6 +794,7 @@ func main() {
 	p("]\n\n")
 	p("%s", orderFacts(repo)) // C12 (order_facts.go)
 	p("%s", concFacts(listFiles)) // C20 (conc_facts.go)
+	p("%s", valueFacts(repo))     // C17 C19 (value_facts.go)
 	factoryFacts(repo, func(f string, a ...any) { p(f, a...) }) // C01 C03 C05 (factory_facts.go)
 	p("end Ioc.Facts\n")
 	fmt.Print(b.String())
